@@ -8,3 +8,6 @@ import DateutilVerif.Properties.C04
 #print axioms C04.roundtrip_range
 #print axioms C04.roundtrip_range_partial
 #print axioms C04.roundtrip_range_norule
+#print axioms C04.roundtrip_generic
+#print axioms C04.generic_ambiguous
+#print axioms C04.roundtrip_tzical_cycle
